@@ -306,6 +306,28 @@ def three_way(ctx: Ctx) -> None:
     ctx.coverage["cli3_trees_agreeing"] = agree
 
 
+MODEL_SKIP = ["__pycache__", "site-packages", "node_modules"]
+
+
+def directed_search(ctx: Ctx, consts: dict) -> None:
+    """A `gen_*` obligation broke: evaluate the regenerated tables on their boundary — a directory whose name only
+    one of the two walkers skips (or that the model does not know) makes `mypy pk` and `mypy -p pk` see different
+    files."""
+    runner = get_runner(ctx)
+    a, b = set(consts.get("skip_sources", [])), set(consts.get("skip_recursive", []))
+    odd = sorted((a ^ b) | ((a | b) ^ set(MODEL_SKIP)))
+    for name in odd:
+        if not name or "/" in name:
+            continue
+        for regime in ("A", "B"):
+            three_way_tree(ctx, runner, ["pk/__init__.py", "pk/a.py", "pk/%s/m.py" % name, "pk/%s/__init__.py" % name],
+                           regime, "directed:skip-name")
+    if consts.get("py_ext") != [".pyi", ".py"]:
+        for regime in ("A", "C"):
+            three_way_tree(ctx, runner, ["pk/__init__.py", "pk/a.py", "pk/a.pyi", "pk/b/__init__.py", "pk/b/__init__.pyi"],
+                           regime, "directed:extension-order")
+
+
 # ------------------------------------------------------------------------------------------- witnesses
 def witnesses(ctx: Ctx, world: str) -> None:
     """The witnesses of the `not_…` theorems must fail on the real code exactly as stated, in the stated cell."""
@@ -346,6 +368,9 @@ def main(ctx: Ctx) -> None:
         "<= 2 (quick) / <= 3 (thorough) files out of r/{,a,b,a/a,a/b,b/a,b/b}/{__init__,a,b}.{py,pyi}, a sample of "
         "those with <= 6 files, a wider random stream and a malformed stream; non-trivial = more than one entry; "
         "distinct by content.  CLI three-way: random package trees (<= depth 3), regimes A/B/C.")
+    from translate import c18consts
+    consts = c18consts.main()                       # Gen/LayoutConsts.lean from the current source
+    ctx.coverage["translated_tables"] = consts
     proved = ctx.prove("MypyVerif.Props.C18", MODEL_FILES)
     ctx.trusted(
         "model: find_sources.create_source_list/crawl_up/_crawl_up_helper/find_sources_in_dir/keyfunc, "
@@ -367,6 +392,8 @@ def main(ctx: Ctx) -> None:
     correspondence(ctx, cases, world)
     t2 = time.time()
     three_way(ctx)
+    if not proved:
+        directed_search(ctx, consts)
     ctx.coverage["phase_s"] = {"prove": round(t0 - ctx.t0, 1), "witnesses+gen": round(t1 - t0, 1),
                                "correspondence": round(t2 - t1, 1), "cli_three_way": round(time.time() - t2, 1)}
     if not proved and not ctx.violations:
